@@ -506,7 +506,12 @@ class World:
             ev = h.create_group("events")
             if special not in ("empty_events", "empty_events_basin"):
                 for f in scal:
-                    v = gen.scalar_values(rs, f, n, 0, pr.choice(["none", "none", "some", "all"]), special=pr.random() < 0.15)
+                    nm_, sp_ = pr.choice(["none", "none", "some", "all"]), pr.random() < 0.15
+                    if f in ("pos_x", "pos_y"):
+                        # (no NaN/inf centroids: a NaN centroid next to a stored contour fails an assertion of the volume
+                        #  computation - an inconsistent input, not a layout; see DESIGN section 14)
+                        nm_, sp_ = "none", False
+                    v = gen.scalar_values(rs, f, n, 0, nm_, special=sp_)
                     if f == "index":
                         v = np.arange(1, n + 1)
                     if v.dtype == np.float64 and pr.random() < 0.3:
